@@ -22,7 +22,7 @@ if [ $recheck -eq 0 ]; then
 fi
 alarms=""
 for i in $(seq -w 1 20); do
-  ( /verif/bin/verifchk -prop C$i -tier quick -repo "$wt" -verif /verif -no-evidence > "$wt/.check_C$i.log" 2>&1; echo $? > "$wt/.rc_C$i" ) &
+  ( ${VERIFBIN:-/verif/bin/verifchk} -prop C$i -tier quick -repo "$wt" -verif /verif -no-evidence > "$wt/.check_C$i.log" 2>&1; echo $? > "$wt/.rc_C$i" ) &
   [ $((10#$i % 5)) -eq 0 ] && wait
 done; wait
 for i in $(seq -w 1 20); do
